@@ -12,7 +12,7 @@ func init() {
 }
 
 func runC12(c *core.Check) {
-	c.Rule = "every history (sequence of writer API calls) of length <= MaxH from the empty and the parsed-with-comments file is one vector; non-trivial = non-empty history, distinct by its call sequence"
+	c.Rule = "every history (sequence of writer API calls) of length <= MaxH from the empty and the parsed-with-comments file is one vector; plus 15 x 40 calls (quick) / 300 (thorough) random histories of 60 calls (names a,b,c; nesting 3) executed by a driver and validated by TLC against HclWriteTree (trace validation); non-trivial = non-empty history, distinct by its call sequence"
 	c.Assumes = []string{
 		"names {a,b}, block types {t,u}, label lists {[],[x],[x,y]}, 4 expression payloads (2 values, traversal, raw tokens); nesting depth <= 2",
 		"AppendBlock is only called with detached blocks (documented precondition)",
@@ -24,4 +24,10 @@ func runC12(c *core.Check) {
 	c.Extra["MaxH"] = h
 	streamTLC(c, core.TLCRun{Module: "MC_C12", Consts: map[string]string{"MaxH": h}, Timeout: minutes(25)},
 		func(st core.State) { c12.Handle(c, st) })
+	// long random histories on the real tree, validated by TLC against the same actions (Trace_Write.tla)
+	if c.Tier == "thorough" {
+		c12.RunTraces(c, 300, 60)
+	} else {
+		c12.RunTraces(c, 15, 40)
+	}
 }
